@@ -30,6 +30,8 @@ PURE_METHODS = {"lower", "upper", "strip", "lstrip", "rstrip", "startswith", "en
                 "format", "replace", "find", "rfind", "isdigit", "copy", "partition", "rpartition", "encode", "decode", "match", "fullmatch", "search", "group", "groups", "title", "zfill",
                 "splitext", "basename", "dirname", "normcase"}
 
+MUTATING_METHODS = {"append", "add", "update", "clear", "pop", "popitem", "setdefault", "extend", "insert", "remove", "discard", "sort", "reverse", "appendleft", "popleft", "write", "seek", "advance"}
+
 _FLIP = {ast.IsNot: ast.Is, ast.NotIn: ast.In, ast.NotEq: ast.Eq}
 _SWAP = {ast.Gt: ast.Lt, ast.GtE: ast.LtE}
 
@@ -588,11 +590,8 @@ class Summariser:
                 nn = env.pop("%facts", None)
                 if nn:
                     truth = dict(truth)
-                    ep = env.get("%epochs", {})
                     for nm, isnone in nn.items():
-                        k0 = f"None is {nm}"
-                        e_ = ep.get(nm, 0)
-                        truth[f"{k0}@{e_}" if e_ > 0 else k0] = isnone
+                        truth[f"None is {nm}"] = isnone
             elif node.kind == "return":
                 effects = effects + [Eff("return", None, self.sub(node.ast.value, env), node.line, lstack, node.ast, False,
                                          frozenset(nm for nm, v in env.items() if isinstance(v, ast.Name) and v.id == nm))]
@@ -656,7 +655,9 @@ class Summariser:
                     if new_atoms:
                         h2 = dict(hist)
                         for k, v in new_atoms.items():
-                            h2.setdefault(k, (v, lstack, len(effects)))
+                            # the n-th time this path decides the same condition (after the objects it mentions were re-bound or changed): key@n
+                            n_prev = sum(1 for hk in h2 if PathSummary.plain(hk) == k)
+                            h2[k if n_prev == 0 else f"{k}@{n_prev + 1}"] = (v, lstack, len(effects))
                     for s, lab in outs:
                         ls2 = lstack
                         if is_while:
@@ -763,9 +764,6 @@ class Summariser:
             yield truth, {}, None
             return
         key, flip = canon(t)
-        e_ = sum(ep.get(nm, 0) for nm in self._mentions(key))
-        if e_ > 0:
-            key = f"{key}@{e_}"
         if key in truth:
             v = truth[key]
             yield truth, {}, (not v) if flip else v
@@ -828,6 +826,24 @@ class Summariser:
         env, effects = self._transfer0(st, env, effects, lstack)
         for e in effects[n0:]:
             e.opq = opq
+        # an object that is stored into or changed through a mutating method is no longer what earlier guards saw
+        changed = set()
+        for e in effects[n0:]:
+            if e.kind in ("store", "aug", "delete") and e.target is not None:
+                r_ = e.target
+                while isinstance(r_, (ast.Attribute, ast.Subscript)):
+                    r_ = r_.value
+                if isinstance(r_, ast.Name):
+                    changed.add(r_.id)
+            for c in e.calls():
+                if isinstance(c.func, ast.Attribute) and c.func.attr in MUTATING_METHODS:
+                    r_ = c.func.value
+                    while isinstance(r_, (ast.Attribute, ast.Subscript)):
+                        r_ = r_.value
+                    if isinstance(r_, ast.Name):
+                        changed.add(r_.id)
+        if changed:
+            env["%killed"] = set(env.get("%killed", ())) | changed
         for e in effects[n0:]:
             if e.kind in ("store", "aug", "delete", "yield", "yieldfrom") or (e.kind in ("expr", "bind") and e.value is not None and not substitutable(e.value, self.pure_calls)):
                 self._barrier(env)
